@@ -200,6 +200,7 @@ theorem add_confluent_partial (t : T) (L1 L2 : List (List Change)) (r : Nat)
 /-- non-vacuity of `add_confluent`: the diamond on top of root `1`, delivered child-first -/
 example : SnapOK [⟨4, [2, 3], 1, false⟩, ⟨3, [1], 1, false⟩, ⟨2, [1], 1, false⟩]
     { root := some 1, att := [⟨1, [], 0, true⟩], lastIter := 1 } := by
+  refine ⟨by intro c hc; simp at hc; rcases hc with rfl | rfl | rfl <;> simp, ?_⟩
   intro t' _ hm c hc _
   have : c.snap = 1 := by
     simp at hc; rcases hc with rfl | rfl | rfl <;> rfl
@@ -209,11 +210,11 @@ example : CausalFor { root := some 1, att := [⟨1, [], 0, true⟩], lastIter :=
     [⟨2, [1], 1, false⟩, ⟨3, [1], 1, false⟩, ⟨4, [2, 3], 1, false⟩] := by
   intro l1 c l2 h
   match l1, h with
-  | [], h => simp at h; obtain ⟨rfl, _⟩ := h; exact ⟨by intro p hp; simp at hp; subst hp; left; decide, by left; decide⟩
-  | [_], h => simp at h; obtain ⟨rfl, rfl, _⟩ := h; exact ⟨by intro p hp; simp at hp; subst hp; left; decide, by left; decide⟩
+  | [], h => simp at h; obtain ⟨rfl, _⟩ := h; exact ⟨by intro p hp; simp at hp; subst hp; left; decide, by left; decide, by left; simp⟩
+  | [_], h => simp at h; obtain ⟨rfl, rfl, _⟩ := h; exact ⟨by intro p hp; simp at hp; subst hp; left; decide, by left; decide, by left; simp⟩
   | [_, _], h =>
     simp at h; obtain ⟨rfl, rfl, rfl, _⟩ := h
-    exact ⟨by intro p hp; simp at hp; rcases hp with rfl | rfl <;> (right; simp), by left; decide⟩
+    exact ⟨by intro p hp; simp at hp; rcases hp with rfl | rfl <;> (right; simp), by left; decide, by left; simp⟩
   | _ :: _ :: _ :: _ :: _, h => simp at h
 
 example :
